@@ -96,6 +96,21 @@ func (r *RawChan) Send(req ua.Request, token *ua.NodeID, deadline time.Duration)
 	return nil
 }
 
+// Recv reads one (single-chunk) response message from the connection.
+func (r *RawChan) Recv(timeout time.Duration) (interface{}, error) {
+	r.Conn.SetReadDeadline(time.Now().Add(timeout))
+	defer r.Conn.SetReadDeadline(time.Time{})
+	raw, err := r.Conn.Receive()
+	if err != nil {
+		return nil, err
+	}
+	m := new(uasc.Message)
+	if _, err := m.Decode(raw); err != nil {
+		return nil, err
+	}
+	return m.Service, nil
+}
+
 func (r *RawChan) Close() { r.Conn.Close() }
 
 var _ = id.ReadRequest_Encoding_DefaultBinary
